@@ -131,6 +131,7 @@ pub fn check_bundle(ctx: &Ctx, rng: &mut Rng, rep: &mut Report, name: &str, sb: 
         let r = rbg2(ctx, program, &[], limit, flags, &Signature::default(), None);
         rep.eval();
         rep.count(&format!("form:{form}"));
+        rep.cell(&format!("{form}:{}:{}:{}:spends{}", flags.bits() >> 16, direct.is_ok(), r.is_ok(), sb.coin_spends.len().min(6)));
         let w = || json!({"bundle": witness(), "form": form, "generator": hx(&program[..program.len().min(4000)]), "flags": format!("{flags:?}"), "name": name});
         match (&direct, &r) {
             (Ok(d), Ok(g)) => {
